@@ -8,7 +8,7 @@ from __future__ import annotations
 
 from typing import Any, Dict, List, Tuple
 
-from checks.codec_common import make_unit_fn, minimize_keys, prog_case, replay_with, tagkey, traced_decode
+from checks.codec_common import make_contextualize, make_unit_fn, minimize_keys, prog_case, replay_with, tagkey, traced_decode
 from mcx.core import Ctx, Part, digest, pmap
 from odxmodel import harness, refodx, space
 from odxmodel.harness import jval, show
@@ -125,6 +125,9 @@ def units_for(ctx: Ctx) -> List[Tuple[str, List[Dict[str, Any]]]]:
     return space.layer_a_units(ctx.quick) + space.layer_b_units(ctx.quick) + space.layer_c_units(ctx.quick)
 
 
+contextualize = make_contextualize(PROPERTY, lambda quick: units_for(__import__("types").SimpleNamespace(quick=quick)))
+
+
 def run(ctx: Ctx) -> None:
     units = units_for(ctx)
     ctx.bounds = {"layers": "A (atomic) + C (composition, BFS over parameter sequences)", "units": len(units),
@@ -133,7 +136,7 @@ def run(ctx: Ctx) -> None:
                 "(program tags, PDU)")
     ctx.assumptions = ["complete(v) is computed by odxmodel/refodx.py; where the reference has no opinion (DontCare) the case is skipped and counted",
                        "RESERVED keys, the representation of MATCHING-REQUEST values are not compared"]
-    pmap(ctx, unit_fn, units)
+    pmap(ctx, unit_fn, units, isolate=True)
     minimize_keys(ctx)
     ctx.counts["traces_validated_against_impl"] = ctx.counts.get("accepted", 0)
     ctx.sample({"program": "i_Ux_l_12_3_a", "values": {"v": 2748}, "pdu": "e055", "decoded": {"v": 2748}})
